@@ -4,7 +4,11 @@
 // is the culprit).  Built normally (build/h_safety) and with ASan+UBSan (build/h_safety.san).
 //
 // Strings cross the protocol as hex: QString fields as UTF-16 code units (4 hex digits each), C-string
-// fields (category, file, function) as bytes (2 hex digits each, no NUL); "-" is the empty string.
+// fields (category, file, function) as bytes (2 hex digits each, no NUL); "-" is the empty string,
+// "~" (C-string fields only) is the NULL POINTER: QMessageLogContext{nullptr, 0, nullptr, nullptr} is what a
+// release build (QT_NO_MESSAGELOGCONTEXT), QML / scripting callers and a default-constructed LogMessage deliver.
+// An answer string longer than kMaxAnswerUnits code units is not hex-encoded: the answer is "TOOBIG:<units>"
+// (a multi-gigabyte padded line must not be pushed through the pipe; the check reports it from the size).
 //   P <pattern16> <type> <msg16> <cat8> <file8> <func8> <line> <n> {<key16> <val16>}   PatternFormatter
 //   Y <colorize> <maxCategoryWidth> <n> {<type> <cat8> <msg16>}      one PrettyFormatter, n messages;
 //                                                                    answer: n x "<time16> <out16>"
@@ -39,16 +43,18 @@ static QString un16(const std::string &h)
 static QByteArray un8(const std::string &h)
 {
     QByteArray b;
-    if (h == "-") return b;
+    if (h == "-" || h == "~") return b;
     b.reserve(int(h.size() / 2));
     for (size_t i = 0; i + 2 <= h.size(); i += 2)
         b.append(char((hv(h[i]) << 4) | hv(h[i + 1])));
     return b;
 }
+static const int kMaxAnswerUnits = 8 << 20;
 static std::string hex16(const QString &s)
 {
     static const char *d = "0123456789abcdef";
     if (s.isEmpty()) return "-";
+    if (s.size() > kMaxAnswerUnits) return "TOOBIG:" + std::to_string(s.size());
     std::string o;
     o.reserve(size_t(s.size()) * 4);
     for (QChar c : s) {
@@ -64,9 +70,18 @@ static const char *const kRegexMenu[] = {
 };
 static const int kRegexMenuSize = int(sizeof(kRegexMenu) / sizeof(kRegexMenu[0]));
 
+// a C-string argument: the bytes, or the null pointer
+struct CStr
+{
+    QByteArray bytes;
+    bool null = false;
+    CStr() { }
+    explicit CStr(const std::string &h) : bytes(un8(h)), null(h == "~") { }
+    const char *ptr() const { return null ? nullptr : bytes.constData(); }
+};
 struct Msg
 {
-    QByteArray cat, file, func;
+    CStr cat, file, func;
     QString text;
     int type = 0, line = 0;
     std::vector<std::pair<QString, QString>> attrs;
@@ -76,7 +91,7 @@ static void readMsg(std::istringstream &is, Msg &m)
     std::string a, b, c, d;
     int n = 0;
     is >> m.type >> a >> b >> c >> d >> m.line >> n;
-    m.text = un16(a); m.cat = un8(b); m.file = un8(c); m.func = un8(d);
+    m.text = un16(a); m.cat = CStr(b); m.file = CStr(c); m.func = CStr(d);
     for (int i = 0; i < n; i++) {
         std::string k, v;
         is >> k >> v;
@@ -85,7 +100,7 @@ static void readMsg(std::istringstream &is, Msg &m)
 }
 template <class F> static QString withMsg(const Msg &m, F f)
 {
-    QMessageLogContext ctx(m.file.constData(), m.line, m.func.constData(), m.cat.constData());
+    QMessageLogContext ctx(m.file.ptr(), m.line, m.func.ptr(), m.cat.ptr());
     LogMessage lm(QtMsgType(m.type), ctx, m.text);
     for (auto &kv : m.attrs) lm.setAttribute(kv.first, kv.second);
     return f(lm);
@@ -116,8 +131,8 @@ int main()
             for (int i = 0; i < n; i++) {
                 int t; std::string cat, msg;
                 is >> t >> cat >> msg;
-                QByteArray c = un8(cat);
-                QMessageLogContext ctx("f", 1, "fn", c.constData());
+                CStr c(cat);
+                QMessageLogContext ctx("f", 1, "fn", c.ptr());
                 LogMessage lm(QtMsgType(t), ctx, un16(msg));
                 QString tm = lm.time().toString(QStringLiteral("dd.MM.yyyy hh:mm:ss"));
                 QString o = pf.format(lm);
@@ -138,8 +153,8 @@ int main()
             std::string rules, cat; int t = 0;
             is >> rules >> t >> cat;
             CategoryFilter f(un16(rules));
-            QByteArray c = un8(cat);
-            QMessageLogContext ctx("f", 1, "fn", c.constData());
+            CStr c(cat);
+            QMessageLogContext ctx("f", 1, "fn", c.ptr());
             LogMessage lm(QtMsgType(t), ctx, QStringLiteral("x"));
             out = f.filter(lm) ? "1" : "0";
         } else if (kind == "R") {
